@@ -36,6 +36,8 @@ type Check struct {
 	// NonTrivPrefixes selects which non-trivial case signatures count for this property
 	// (nil = all).
 	NonTrivPrefixes []string
+	// Custom, when set, replaces the generic world-batch runner (C45 compares processes).
+	Custom func(o RunOptions) int
 }
 
 func (ck *Check) countNonTrivial(st *Stats) int {
